@@ -123,8 +123,8 @@ def gen_c19(rng: random.Random) -> dict:
 class C19(CheckBase):
     pid = "C19"
     level = "exploration"
-    quick_cases = 4800
-    thorough_cases = 72000
+    quick_cases = 12000
+    thorough_cases = 120000
 
     def cases(self, rng: random.Random, tier: str, idx: int) -> Iterable[dict]:
         yield gen_c19(rng)
